@@ -564,21 +564,29 @@ def check_pipe_args(prog, rep, entry, pub, f_np, f_da):
             return
         args = {}
         partials = {}
+        def by_param(g, pos, kws):
+            # arguments by the kernel's parameter names: positional or keyword makes no difference
+            b_ = dict(zip(g.params, pos))
+            b_.update({k_: v_ for k_, v_ in kws.items() if k_ in g.params + g.kwonly})
+            return tuple(sorted((k_, plain(v_)) for k_, v_ in b_.items()))
+        DASK_KW = {'meta', 'dtype', 'chunks', 'name', 'token', 'drop_axis', 'new_axis', 'depth', 'boundary', 'trim', 'align_arrays'}
         for c in w.calls:
             if any(c.callee is g for g in shared):
-                args.setdefault(c.callee.qualname, []).append(tuple(plain(a) for a in c.args))
+                args.setdefault(c.callee.qualname, []).append(by_param(c.callee, c.args, c.kwargs))
             nm = str(c.name)
             if nm.endswith('partial') and c.args and c.args[0][0] == 'global':
-                partials[tkey(c.result)] = (c.args[0][1], c.args[1:])
+                partials[tkey(c.result)] = (c.args[0][1], c.args[1:], dict(c.kwargs))
             if nm.endswith(('map_blocks', 'map_overlap')) and c.args:
                 fn = c.args[0]
-                extra = ()
+                extra, pkw = (), {}
                 if tkey(fn) in partials:
-                    fn, extra = ('global', partials[tkey(fn)][0]), tuple(partials[tkey(fn)][1])
+                    fn, extra, pkw = ('global', partials[tkey(fn)][0]), tuple(partials[tkey(fn)][1]), partials[tkey(fn)][2]
                 if fn[0] in ('global', 'localfunc'):
                     g = next((h for h in shared if h.name == fn[1] or h.qualname == fn[1]), None)
                     if g is not None:
-                        args.setdefault(g.qualname, []).append(tuple(plain(a) for a in extra + tuple(c.args[1:])))
+                        kws_ = dict(pkw)
+                        kws_.update({k_: v_ for k_, v_ in c.kwargs.items() if k_ not in DASK_KW})
+                        args.setdefault(g.qualname, []).append(by_param(g, extra + tuple(c.args[1:]), kws_))
         got[be] = args
     for q in sorted(set(got['numpy']) & set(got['dask'])):
         a, b = sorted(set(got['numpy'][q])), sorted(set(got['dask'][q]))
@@ -586,10 +594,10 @@ def check_pipe_args(prog, rep, entry, pub, f_np, f_da):
         diff = ''
         if not ok:
             for x, y in zip(a, b):
-                for i_, (u, v) in enumerate(zip(x, y)):
-                    if u != v:
+                for (pu, u), (pv, v) in zip(x, y):
+                    if u != v or pu != pv:
                         k_ = next((n_ for n_ in range(min(len(u), len(v))) if u[n_] != v[n_]), 0)
-                        diff = 'argument %d differs: numpy ...%s... / dask ...%s...' % (i_, u[max(0, k_ - 60):k_ + 60], v[max(0, k_ - 60):k_ + 60])
+                        diff = 'parameter %s differs: numpy ...%s... / dask ...%s...' % (pu, u[max(0, k_ - 60):k_ + 60], v[max(0, k_ - 60):k_ + 60])
                         break
                 if diff:
                     break
@@ -716,7 +724,10 @@ def check(prog, rep):
         nred += check_H4(prog, rep, entry, f_da, ex_da, np_funcs)
         if kind == PIPE:
             check_pipe(prog, rep, entry, f_np, f_da)
-            check_pipe_args(prog, rep, entry, pub, f_np, f_da)
+            if fname in ('perlin', 'generate_terrain'):
+                # generators build their inputs (coordinate grids, permutation tables) from scalars on either path: those
+                # must be the same terms; pipelines that transform a raster legitimately differ between the backends
+                check_pipe_args(prog, rep, entry, pub, f_np, f_da)
         if kind == MODULE:
             rep.add('H0', pub, entry, 'numpy path %s / dask path %s' % (f_np.qualname, f_da.qualname), pub.node.lineno,
                     f_np is f_da, 'module-parametrised op: both paths must run the same function')
